@@ -324,8 +324,8 @@ func c15DiffOnce(p *c15Pair, comp lib.Compression, procs int, rng *lib.Rng) (res
 
 func c15DiffCases(c *Ctx) error {
 	r := c.Rng.Fork()
-	n := c.N(6, 60)
-	runs := c.N(4, 16)
+	n := c.N(6, 40)
+	runs := c.N(4, 12)
 	for i := 0; i < n; i++ {
 		cr := r.Fork()
 		opts := lib.PairOpts{MaxFiles: 4, MaxSize: 3 * lib.BS, Links: true}
@@ -499,8 +499,8 @@ func c15OptimizeCorpus(c *Ctx) error {
 
 func c15OptimizeCases(c *Ctx) error {
 	r := c.Rng.Fork()
-	n := c.N(5, 48)
-	runs := c.N(4, 16)
+	n := c.N(5, 24)
+	runs := c.N(4, 8)
 	for i := 0; i < n; i++ {
 		cr := r.Fork()
 		old, nw, rel := c15GenOptPair(cr, i%5 == 4)
@@ -629,8 +629,8 @@ func c15GenBsdiffPair(r *lib.Rng, class string, thorough bool) (old, nw []byte) 
 
 func c15Bsdiff(c *Ctx) error {
 	r := c.Rng.Fork()
-	n := c.N(6, 40)
-	runs := c.N(3, 8)
+	n := c.N(6, 30)
+	runs := c.N(3, 6)
 	for i := 0; i < n; i++ {
 		cr := r.Fork()
 		class := []string{"dense", "edits", "manyblocks", "edits", "dense", "edits"}[i%6]
@@ -654,7 +654,7 @@ func c15Bsdiff(c *Ctx) error {
 			var prog []float64
 			var cls, msg string
 			withProcs(procs, func() {
-				cls, msg = lib.WithDeadline(180*time.Second, func() error {
+				cls, msg = lib.WithDeadline(60*time.Second, func() error {
 					var err error
 					stream, m, replay, b, prog, err = c15RunBsdiff(old, nw, partitions, conc)
 					return err
@@ -801,7 +801,7 @@ func c15RaceCases(c *Ctx) error {
 		return err
 	}
 	r := c.Rng.Fork()
-	n := c.N(3, 18)
+	n := c.N(3, 12)
 	for i := 0; i < n; i++ {
 		p := c15RaceParams{Seed: r.U64(), Kind: []string{"diff", "optimize", "bsdiff"}[i%3], I: i/3 + int(c.Seed)}
 		result := filepath.Join(c.Tmp, "c15race.jsonl")
